@@ -103,6 +103,9 @@ func runReplay(bin string, harness string, model map[string]string, thorough boo
 	}
 	cmd.Env = append(os.Environ(), "VERIF_REPLAY="+mf.Name(), "VERIF_RESULT="+rf, "VERIF_TIER="+tier)
 	out, err := cmd.CombinedOutput()
+	if os.Getenv("GOSMT_REPLAY_OUT") != "" {
+		os.Stderr.Write(out)
+	}
 	res := &replayResult{}
 	rb, rerr := os.ReadFile(rf)
 	if rerr != nil {
